@@ -356,7 +356,16 @@ func (r *BinaryReader) ReadAt(b []byte, off int64) (int, error) {
 
 // ReadBytes reads n bytes.
 func (r *BinaryReader) ReadBytes(n int64) []byte {
-	data, err := r.f.Bytes(nil, n, r.pos)
+	var data []byte
+	var err error
+	if rem := r.f.Len() - r.pos; 0 <= rem && rem < n {
+		// more than there is: read what remains (n may come from the data and be huge), the result is short
+		if data, err = r.f.Bytes(nil, rem, r.pos); err == nil {
+			err = io.EOF
+		}
+	} else {
+		data, err = r.f.Bytes(nil, n, r.pos)
+	}
 	r.pos += int64(len(data))
 	if r.err == nil {
 		r.err = err
